@@ -35,7 +35,7 @@ static Plan gen_corrupt(const std::string &prop, const std::string &tier, uint64
 			uint64_t k = r.below(10);
 			std::string kind = k < 3 ? "bit1" : k < 5 ? "bit2" : k < 6 ? "bit3" : k < 9 ? "burst" : "crcset";
 			// block selector (mod blocks+1; the last one is the index block), position seed, reach path
-			p.op("flip", { kind, std::to_string(r.chance(1, 4) ? 9999 : r.below(64)), std::to_string(r.below(1u << 30)), std::to_string(r.below(4)) });
+			p.op("flip", { kind, std::to_string(r.chance(1, 4) ? 9999 : r.below(64)), std::to_string(r.below(1u << 30)), std::to_string(r.below(8)) });
 		}
 		p.seti("tool_every", thorough ? 2 : 3);
 	} else {
@@ -54,11 +54,13 @@ static Plan gen_corrupt(const std::string &prop, const std::string &tier, uint64
 			else if (k < 52) p.op("idxoff", { std::to_string(r.below(16)), std::to_string(r.below(1u << 30)), v });
 			else if (k < 60) p.op("magic", { std::to_string(r.below(4)), std::to_string(r.below(1u << 30)), v });
 			else if (k < 78) p.op("idxlen", { std::to_string(r.below(16)), std::to_string(r.below(1u << 30)), v });
-			else if (k < 82) p.op("idxtail", { std::to_string(r.below(12)), std::to_string(r.below(1u << 30)), v });
+			else if (k < 80) p.op("idxtail", { std::to_string(r.below(12)), std::to_string(r.below(1u << 30)), v });
+			else if (k < 82) p.op("idxbody", { std::to_string(r.below(14)), std::to_string(r.below(1u << 30)), v });
 			else if (k < 88) p.op("random", { std::to_string(r.below(2049)), std::to_string(r.below(1u << 30)), std::to_string(r.below(3)), v });
 			else if (k < 91) p.op("tiny", { std::to_string(512 + r.below(40)), std::to_string(r.below(1u << 30)), std::to_string(r.below(12)), v });
 			else if (k < 95) p.op("trailerflip", { std::to_string(r.below(1u << 30)), std::to_string(1 + r.below(4)), v });
-			else p.op("cutmiddle", { std::to_string(r.below(1u << 30)), v });
+			else if (k < 98) p.op("cutmiddle", { std::to_string(r.below(1u << 30)), v });
+			else p.op("swapopen", { std::to_string(r.below(4)), std::to_string(r.below(1u << 30)), v });
 		}
 	}
 	return p;
@@ -103,7 +105,8 @@ static int open_damaged(const std::string &path, const Bytes &bytes, bool verify
 }
 
 // iterate with verify_checksums under the trap; returns entries delivered before the stop
-static bool read_with_verify(const std::string &path, int how, const Bytes &target, std::vector<std::pair<Bytes, Bytes>> &got, bool &trapped, bool &opened)
+static bool read_with_verify(const std::string &path, int how, const Bytes &target, std::vector<std::pair<Bytes, Bytes>> &got, bool &trapped, bool &opened,
+			     const Bytes &later = Bytes(), const Bytes &earlier = Bytes())
 {
 	got.clear(); trapped = false; opened = false;
 	mtbl_reader_options *ro = make_reader_options(true, optvar_next() & 1);
@@ -128,8 +131,27 @@ static bool read_with_verify(const std::string &path, int how, const Bytes &targ
 				if (mtbl_iter_next(it, &k, &kl, &v, &vl) == mtbl_res_success) got.push_back({ Bytes((const char *)k, kl), Bytes((const char *)v, vl) });
 				if (mtbl_iter_seek(it, (const uint8_t *)target.data(), target.size()) == mtbl_res_success)
 					for (int i = 0; i < 3 && mtbl_iter_next(it, &k, &kl, &v, &vl) == mtbl_res_success; i++) got.push_back({ Bytes((const char *)k, kl), Bytes((const char *)v, vl) });
-			} else {			// prefix / range lookup starting in the block
+			} else if (how == 3) {		// prefix / range lookup starting in the block
 				it = mtbl_source_get_range(s, (const uint8_t *)target.data(), target.size(), (const uint8_t *)"\xff\xff\xff\xff", 4);
+				for (int i = 0; i < 3 && mtbl_iter_next(it, &k, &kl, &v, &vl) == mtbl_res_success; i++) got.push_back({ Bytes((const char *)k, kl), Bytes((const char *)v, vl) });
+			} else if (how == 4 || how == 5) {
+				// one iterator that first reads a block *behind* the damaged one (jumping over it) and is then taken back
+				// into it: whatever the iterator or the reader remembers about blocks it has been past, this block was
+				// never verified.  4: unbounded iterator; 5: range iterator that starts in the block before.
+				it = how == 4 ? mtbl_source_iter(s) : mtbl_source_get_range(s, (const uint8_t *)earlier.data(), earlier.size(), (const uint8_t *)"\xff\xff\xff\xff", 4);
+				if (mtbl_iter_seek(it, (const uint8_t *)later.data(), later.size()) == mtbl_res_success &&
+				    mtbl_iter_next(it, &k, &kl, &v, &vl) == mtbl_res_success) got.push_back({ Bytes((const char *)k, kl), Bytes((const char *)v, vl) });
+				if (mtbl_iter_seek(it, (const uint8_t *)target.data(), target.size()) == mtbl_res_success)
+					for (int i = 0; i < 3 && mtbl_iter_next(it, &k, &kl, &v, &vl) == mtbl_res_success; i++) got.push_back({ Bytes((const char *)k, kl), Bytes((const char *)v, vl) });
+			} else {
+				// two iterators of one reader, one after the other: the first reads the block behind the damaged one
+				// (6: by get, 7: by seek on a full iterator) and is closed, the second goes for the damaged block
+				it = how == 6 ? mtbl_source_get(s, (const uint8_t *)later.data(), later.size()) : mtbl_source_iter(s);
+				if (how == 7) (void)!mtbl_iter_seek(it, (const uint8_t *)later.data(), later.size());
+				if (mtbl_iter_next(it, &k, &kl, &v, &vl) == mtbl_res_success) got.push_back({ Bytes((const char *)k, kl), Bytes((const char *)v, vl) });
+				{ mtbl_iter *i2 = it; mtbl_iter_destroy(&i2); it = nullptr; }
+				it = how == 6 ? mtbl_source_get(s, (const uint8_t *)target.data(), target.size()) : mtbl_source_iter(s);
+				if (how == 7) (void)!mtbl_iter_seek(it, (const uint8_t *)target.data(), target.size());
 				for (int i = 0; i < 3 && mtbl_iter_next(it, &k, &kl, &v, &vl) == mtbl_res_success; i++) got.push_back({ Bytes((const char *)k, kl), Bytes((const char *)v, vl) });
 			}
 			{ mtbl_iter *i2 = it; mtbl_iter_destroy(&i2); it = nullptr; }
@@ -190,17 +212,26 @@ static void check_damaged(const Base &b, RunResult &res, const std::string &path
 		if (st == 0 || out.find(": OK") != Bytes::npos)
 			res.fail("MODEL", index_blk ? "VERIFY-TOOL-accepts-damaged-index" : "VERIFY-TOOL-accepts-damaged-block", "mtbl_verify reports OK (exit " + std::to_string(st) + ") for a file with " + what);
 	}
-	Bytes target;
+	Bytes target, later, earlier;
 	if (!index_blk && !b.df.data[blk].entries.empty()) {
 		auto &e = b.df.data[blk].entries;
-		target = how == 1 ? e[e.size() / 2].key : e.front().key;
+		target = how == 1 || how == 6 ? e[e.size() / 2].key : e.front().key;
+		if (how >= 4) {
+			// the histories that come back to the block need a block behind it (and 5 one in front of it)
+			if (blk + 1 < nb && !b.df.data[blk + 1].entries.empty()) later = b.df.data[blk + 1].entries.front().key; else how = 2;
+			if (how == 5) { if (blk > 0 && !b.df.data[blk - 1].entries.empty()) earlier = b.df.data[blk - 1].entries.back().key; else how = 4; }
+			if (how >= 4) res.probes["damaged-block-reached-after-a-block-behind-it"]++;
+		}
 	} else how = 0;
 	std::vector<std::pair<Bytes, Bytes>> got; bool trapped, opened;
-	read_with_verify(path, how, target, got, trapped, opened);
+	read_with_verify(path, how, target, got, trapped, opened, later, earlier);
 	res.ev.u(trapped); res.ev.u(got.size());
 	if (trapped) res.probes[index_blk ? "stopped-on-damaged-index" : "stopped-on-damaged-block"]++;
 	if (index_blk) {
-		if (opened) res.fail("MODEL", "READER-accepts-damaged-index", "reader with verify_checksums opened a file with " + what);
+		// the property lets the process stop at any moment before an entry is handed out: at open (what today's reader
+		// does) or when the index is first used; what it rules out is a reader that works from the damaged index
+		if (opened && trapped) res.probes["damaged-index-stopped-after-open"]++;
+		if (opened && !trapped) res.fail("MODEL", "READER-accepts-damaged-index", "reader with verify_checksums opened a file with " + what + " and iterated it to the end (" + std::to_string(got.size()) + " entries)");
 		return;
 	}
 	for (auto &kv : got) {
@@ -211,7 +242,7 @@ static void check_damaged(const Base &b, RunResult &res, const std::string &path
 			return;
 		}
 		if (bo != b.blk_of.end() && bo->second == blk) {
-			static const char *hows[] = { "iteration", "get", "seek", "range" };
+			static const char *hows[] = { "iteration", "get", "seek", "range", "seek-back", "range-seek-back", "second-get", "second-iterator" };
 			res.fail("MODEL", std::string("READER-accepts-damaged-block-") + hows[how], "reader with verify_checksums returned key " + short_repr(kv.first) + " decoded from the damaged block (" + what + ") via " + hows[how]);
 			return;
 		}
@@ -317,7 +348,7 @@ static RunResult exec_corrupt(const Plan &p)
 			if (blk > 0 && blk < nb) later_block = true;
 			if (blk == nb) res.probes["fault-in-index-block"]++;
 			if (blk == nb - 1 && nb > 1) res.probes["fault-in-last-data-block"]++;
-			check_damaged(b, res, dpath, dam, blk, (int)(o.argi(3) & 3), (nflip++ % (size_t)tool_every) == 0, desc);
+			check_damaged(b, res, dpath, dam, blk, (int)(o.argi(3) & 7), (nflip++ % (size_t)tool_every) == 0, desc);
 		} else if (o.name == "sweepbits") {
 			// every single-bit flip of every block (checksum + stored bytes)
 			size_t cases = 0;
@@ -403,6 +434,38 @@ static RunResult exec_corrupt(const Plan &p)
 			if (sel % 3 == 0 && end >= 8) wr32le(dam, end - 8, (uint32_t)o.argi(1) * 2654435761u);
 			res.faults["index-restart-count"]++;
 			open_damaged(dpath, dam, o.argi(2), opi & 1, res);
+		} else if (o.name == "idxbody") {
+			// the index block's *contents* name places outside the file, or are garbage, while its frame (length prefix,
+			// CRC-32C, restart array) is valid: an open that looks inside the index must bound what it finds there
+			uint64_t sel = (uint64_t)o.argi(0), x = (uint64_t)o.argi(1);
+			std::vector<std::pair<Bytes, Bytes>> ie;
+			for (auto &e : b.df.index_entries) { uint8_t t[12]; size_t n = mfmt::put_varint(t, e.second); ie.push_back({ e.first, Bytes((const char *)t, n) }); }
+			if (ie.empty()) ie.push_back({ Bytes("k"), Bytes(1, '\0') });
+			static const uint64_t far[] = { ~0ull, 1ull << 63, 1ull << 62, 1ull << 45, 1ull << 32, (1ull << 32) - 1, 1ull << 31 };
+			size_t victim = sel % 3 == 0 ? ie.size() - 1 : sel % 3 == 1 ? 0 : (size_t)(x % ie.size());
+			uint64_t v = sel < 7 ? far[sel] : sel == 7 ? size : sel == 8 ? size - 1 : sel == 9 ? ioff : sel == 10 ? size - 512 : size + x % 8192;
+			{ uint8_t t[12]; size_t n = mfmt::put_varint(t, v); ie[victim].second = Bytes((const char *)t, n); }
+			if (sel == 12) ie[victim].second = Bytes(10, '\xff');	// a varint that never ends
+			if (sel == 13) ie[victim].second = Bytes();		// no offset at all
+			Bytes blk; std::vector<uint32_t> rs;
+			for (size_t i = 0; i < ie.size(); i++) {
+				rs.push_back((uint32_t)blk.size());	// every entry a restart point, nothing shared
+				uint8_t t[12];
+				blk.append((const char *)t, mfmt::put_varint(t, 0));
+				blk.append((const char *)t, mfmt::put_varint(t, ie[i].first.size()));
+				blk.append((const char *)t, mfmt::put_varint(t, ie[i].second.size()));
+				blk += ie[i].first; blk += ie[i].second;
+			}
+			for (uint32_t q : rs) { blk.append(4, '\0'); wr32le(blk, blk.size() - 4, q); }
+			blk.append(4, '\0'); wr32le(blk, blk.size() - 4, (uint32_t)rs.size());
+			if (sel % 5 == 4) for (int i = 0; i < 3; i++) { size_t at = (size_t)((x >> (i * 7)) % (blk.size() - 4 * rs.size() - 4)); blk[at] ^= (char)(1u << (x % 8)); }	// and garbage among the entries
+			Bytes frame;
+			if (b.df.version == 1) { frame.append(4, '\0'); wr32le(frame, 0, (uint32_t)blk.size()); }
+			else { uint8_t t[12]; frame.append((const char *)t, mfmt::put_varint(t, blk.size())); }
+			frame.append(4, '\0'); wr32le(frame, frame.size() - 4, mfmt::crc32c((const uint8_t *)blk.data(), blk.size()));
+			Bytes dam = b.file.substr(0, ioff) + frame + blk + b.file.substr(size - 512);
+			res.faults["index-contents-point-outside-the-file"]++;
+			open_damaged(dpath, dam, o.argi(2), opi & 1, res);
 		} else if (o.name == "random") {
 			size_t n = (size_t)o.argi(0);
 			Bytes dam;
@@ -432,6 +495,34 @@ static RunResult exec_corrupt(const Plan &p)
 			for (int i = 0; i < n; i++) { size_t bit = r.below(72 * 8); dam[size - 512 + bit / 8] ^= (char)(1u << (bit % 8)); }
 			res.faults["trailer-bitflip"]++;
 			open_damaged(dpath, dam, o.argi(2), opi & 1, res);
+		} else if (o.name == "swapopen") {
+			// another process publishes a different (shorter or longer) table under the name while mtbl_reader_init(path) is
+			// under way: whatever the reader learnt about the path before its open() describes a file it does not get.
+			// Both files are well-formed; the bytes it may touch are those of the file it actually opened.
+			uint64_t sel = (uint64_t)o.argi(0);
+			mfmt::EncOpts eo; eo.seed = (uint64_t)o.argi(1); eo.version = b.df.version;
+			mfmt::Entries small;
+			if (sel >= 1) small.push_back({ "k", "v" });
+			if (sel == 3) for (int i = 0; i < 400; i++) { char kb[16]; snprintf(kb, sizeof kb, "l%05d", i); small.push_back({ kb, Bytes(40, 'x') }); }
+			std::string other = dpath + ".new";
+			write_file(other, sel == 2 ? b.file.substr(0, size > 512 ? size - 100 : size) : mfmt::encode(small, eo));	// 2: not even a table
+			write_file(dpath, b.file);
+			mtbl_reader_options *ro = make_reader_options(o.argi(2), optvar_next() & 1);
+			sim_mmap_exact_heap(1); sim_mmap_track(1);
+			sim_open_swap_with(other.c_str());
+			int outcome;
+			if (SIM_TRAP_TRY()) {
+				mtbl_reader *rd = mtbl_reader_init(dpath.c_str(), ro);
+				SIM_TRAP_END();
+				outcome = rd ? 1 : 0;
+				if (rd) mtbl_reader_destroy(&rd);
+			} else { outcome = 2; sim_mmap_release_leaked(); }
+			sim_open_swap_with(nullptr);
+			sim_mmap_track(0); sim_mmap_exact_heap(0);
+			mtbl_reader_options_destroy(&ro);
+			unlink(other.c_str());
+			res.faults["file-replaced-between-path-lookup-and-open"]++;
+			res.ev.u(outcome);
 		} else if (o.name == "cutmiddle") {
 			// bytes lost from the middle: the trailer survives, everything before it shifts
 			uint64_t at = r.below(size - 511), len = 1 + r.below(64);
